@@ -39,7 +39,14 @@ def run_case(rng, tier, case):
     case.key = env.spec_key(gen.strip_private(spec)); case.sample = gen.abbreviate(spec); case.spec = spec
     r = flow.run_portfolio(spec, split=split, do_optimize=False)
     if not r.ok:
-        case.reject(flow.describe_error(r))
+        msg = flow.describe_error(r)
+        domain = isinstance(r.error, (AssertionError, NotImplementedError)) or 'concatenate str' in msg or 'ill-posed' in msg or type(r.error).__name__ in ('AmbiguousTimeError', 'NonExistentTimeError') \
+            or r.stage == 'build'
+        if domain:
+            case.reject(msg)
+        else:
+            # the assembly itself failed on an input every asset accepted on its own terms: no faithful description of anything was produced
+            case.check('portfolio.setup_works', False, error=msg, split=split)
     rec = r.rec
     n_assets_with_vars = 0
     for ev in rec.of('asset_setup'):
